@@ -247,7 +247,27 @@ func (g *gen) faultStmt() ([]zn.Stmt, zn.Stmt, string) {
 	div := func(den zn.Expr) zn.Expr {
 		return &zn.Bin{Op: ">", L: &zn.Bin{Op: "/", L: num(10), R: &zn.Grp{E: den}}, R: num(0)}
 	}
-	switch g.pick(15, "fault") {
+	switch g.pick(18, "fault") {
+	case 17:
+		// the statement spans lines (a text with line breaks comes first): it is reported at
+		// its first line, whose text ends inside the literal
+		g.labels["fault-statement-starts-with-multi-line-text"] = true
+		return nil, show(&zn.RawStr{Src: "“头一行\n次行”", Val: "头一行\n次行"}, &zn.Bin{Op: "/", L: num(1), R: num(0)}), "division by zero after a multi-line text in the same statement"
+	case 16:
+		// a statement that only reads a property
+		g.labels["fault-in-property-statement"] = true
+		cn, on := fmt.Sprintf("属类%d", g.n), fmt.Sprintf("属物%d", g.n)
+		return []zn.Stmt{&zn.ClassDef{Name: cn, Props: []zn.Prop{{Name: "值", Init: num(0)}}}, &zn.Let{Names: []string{on}, E: &zn.New{Class: cn}}},
+			&zn.ExprStmt{E: &zn.Member{Root: v(on), Name: "无此属性"}}, "unknown property read by a statement of its own"
+	case 15:
+		// wrong number of arguments for a method of a class: none of its body runs
+		g.labels["fault-argument-count-of-class-method"] = true
+		cn, on := fmt.Sprintf("参类%d", g.n), fmt.Sprintf("参物%d", g.n)
+		cd := &zn.ClassDef{Name: cn, Props: []zn.Prop{{Name: "值", Init: num(0)}, {Name: "次", Init: num(1)}},
+			Methods: []zn.FuncDef{{Name: "先法", Body: []zn.Stmt{&zn.Return{E: num(1)}}}, {Name: "误法", Params: []string{"参甲", "参乙"}, Body: []zn.Stmt{&zn.Return{E: v("参甲")}}}}}
+		g.arityDecl = &cd.Methods[1]
+		return []zn.Stmt{cd, &zn.Let{Names: []string{on}, E: &zn.New{Class: cn}}},
+			&zn.ExprStmt{E: &zn.MCall{Root: v(on), Chain: []zn.Call{{Name: "误法", Args: []zn.Expr{num(1)}}}}}, "argument count mismatch for a method of a class"
 	case 14:
 		// a method the object's class does not define: no call takes place
 		g.labels["fault-unknown-method-of-object"] = true
@@ -523,6 +543,17 @@ func TestRuntimeFaults(t *testing.T) {
 				var call zn.Expr = &zn.Call{Name: fmt.Sprintf("层%d", i+1), Args: []zn.Expr{num(float64(i))}}
 				if useMethod[i+1] {
 					call = &zn.MCall{Root: &zn.New{Class: fmt.Sprintf("类%d", i+1)}, Chain: []zn.Call{{Name: "跑", Args: []zn.Expr{num(float64(i))}}}}
+				}
+				if !useMethod[i+1] && g.pick(4, "alias") == 0 {
+					// the callee is reached through another name, a variable that holds it: its
+					// frame still belongs to the module that declares it
+					an := fmt.Sprintf("别名%d", i)
+					body = append(body, &zn.Let{Names: []string{an}, E: v(fmt.Sprintf("层%d", i+1))})
+					call = &zn.Call{Name: an, Args: []zn.Expr{num(float64(i))}}
+					g.labels["callee-called-through-a-variable"] = true
+					if home[i+1] != home[i] {
+						g.labels["imported-callee-called-through-a-variable"] = true
+					}
 				}
 				switch g.pick(4, "callform") {
 				case 0:
